@@ -78,7 +78,7 @@ func repoClosure(p *Program, roots []*ssa.Function) []*ssa.Function {
 	var out []*ssa.Function
 	var walk func(f *ssa.Function)
 	walk = func(f *ssa.Function) {
-		if f == nil || seen[f] || !p.IsRepo(f) || f.Name() == "evaluate" {
+		if f == nil || seen[f] || !p.IsRepo(f) || f.Name() == "evaluate" || f == p.RoleFunc("evaluator", "evaluator", "evaluate") {
 			return
 		}
 		seen[f] = true
